@@ -88,12 +88,21 @@ def in_reach(t):
     return t.kind == "str" or neg(enc() == "wide")
 
 
-def bnd(t, p):
-    """p (0 <= p <= len) is a character boundary of t."""
+def lead_ok(t):
+    """A UTF-8 byte text does not begin in the middle of a character (with a continuation byte)."""
     if t.kind == "str":
         return True
     n = tlen(t)
-    return implies(enc() == "utf8", either(p == 0, p == n, neg(is_cont(t, imin(imax(p, 0), imax(n - 1, 0))))))
+    return implies(enc() == "utf8", either(n == 0, neg(is_cont(t, 0))))
+
+
+def bnd(t, p):
+    """Offset p (0 <= p <= len) of t is not inside a multi-byte character: it is the end of the text or does not hold
+    a UTF-8 continuation byte — and the text itself does not begin with one (else offset 0 would be "inside")."""
+    if t.kind == "str":
+        return True
+    n = tlen(t)
+    return both(lead_ok(t), implies(enc() == "utf8", either(p == n, neg(is_cont(t, imin(imax(p, 0), imax(n - 1, 0)))))))
 
 
 def in_range(s):
@@ -235,3 +244,99 @@ class insert_text_result(_EditBase):
     def pure_spec(old, a):
         lo, hi = selection(old)
         return spliced(old._edit_text, lo, hi, a.text), lo + tlen(a.text)
+
+
+# ------------------------------------------------------------------------------------------------ set_edit_text
+
+def signal_log(trace):
+    """[(name, args, text field at the moment of emission, pos field at that moment)] in order."""
+    return [tuple(ev[1:]) for ev in emits(trace)]
+
+
+def change_protocol(trace, old_text, new_text):
+    """'change' carries the new text and is emitted while the widget still holds the old one; 'postchange' carries the
+    old text and is emitted when the widget holds the new one; nothing else is emitted.  (generator of clauses)"""
+    log = signal_log(trace)
+    yield "two-signals-change-then-postchange", both(len(log) == 2, log[0][0] == "change" if len(log) == 2 else False, log[1][0] == "postchange" if len(log) == 2 else False)
+    if len(log) == 2:
+        (_n1, args1, text_at_1, _p1), (_n2, args2, text_at_2, _p2) = log
+        yield "change-carries-the-new-text", both(len(args1) == 1, same_text(args1[0], new_text) if len(args1) == 1 else False)
+        yield "change-comes-before-the-text-is-written", same_text(text_at_1, old_text)
+        yield "postchange-carries-the-old-text", both(len(args2) == 1, same_text(args2[0], old_text) if len(args2) == 1 else False)
+        yield "postchange-comes-after-the-text-is-written", same_text(text_at_2, new_text)
+
+
+@contract(ED + "Edit.set_edit_text", property="C10")
+class set_edit_text(_EditBase):
+    self_shape = EDIT
+    invariant = staticmethod(RI)
+    globals_ = ENC
+    replayable = False
+    inline = _EditBase.inline
+    havoc = _EditBase.havoc
+    params = dict(text=ANYTEXT)
+    raises = ()
+    modifies = ("_edit_text", "_edit_pos", "highlight", "pref_col_maxcol")
+
+    def requires(s, a):
+        return a.text.kind == s._edit_text.kind
+
+    def ensures(old, s, a, result):
+        yield "cursor-kept-or-pulled-back-to-the-end", s._edit_pos == imin(old._edit_pos, tlen(a.text))
+        yield "selection-forgotten", is_none(s.highlight)
+        yield "invalidated-after-the-last-write", both(count_ev(s.trace, "_invalidate") >= 1, s.trace[-1][0] == "_invalidate" if s.trace else False)
+        yield from change_protocol(s.trace, old._edit_text, a.text)
+        log = signal_log(s.trace)
+        if len(log) == 2:
+            yield "postchange-sees-the-adjusted-cursor", log[1][3] == imin(old._edit_pos, tlen(a.text))
+        yield "text-stored", same_text(s._edit_text, a.text)
+
+    def effects(old, s, a, result):
+        p2 = imin(old._edit_pos, tlen(a.text))
+        s.fields["_edit_text"] = a.text
+        s.fields["_edit_pos"] = p2
+        s.fields["highlight"] = None
+        s.fields["pref_col_maxcol"] = (None, None)
+        s.trace.extend([("_emit", "change", (a.text,), old._edit_text, old._edit_pos), ("_invalidate",),
+                        ("_emit", "postchange", (old._edit_text,), a.text, p2), ("_invalidate",)])
+
+
+# ------------------------------------------------------------------------------------------------ insert_text
+
+@contract(ED + "Edit.insert_text", property="C10")
+class insert_text(_EditBase):
+    self_shape = EDIT
+    invariant = staticmethod(RI)
+    globals_ = ENC
+    replayable = False
+    inline = _EditBase.inline
+    havoc = _EditBase.havoc
+    params = dict(text=ANYTEXT)
+    raises = ()
+    modifies = ("_edit_text", "_edit_pos", "highlight", "pref_col_maxcol")
+
+    def requires(s, a):
+        return both(a.text.kind == s._edit_text.kind, selection_ok(s))
+
+    def ensures(old, s, a, result):
+        t = old._edit_text
+        lo, hi = selection(old)
+        new = spliced(t, lo, hi, a.text)
+        yield "cursor-just-after-the-insertion", s._edit_pos == lo + tlen(a.text)
+        yield "length-adds-up", tlen(s._edit_text) == tlen(t) - (hi - lo) + tlen(a.text)
+        yield "selection-forgotten", is_none(s.highlight)
+        yield "cursor-stays-on-a-character-boundary", implies(both(bnd(t, hi), lead_ok(a.text)), bnd(s._edit_text, s._edit_pos))
+        yield from change_protocol(s.trace, t, new)
+        yield "text-is-old-text-with-the-insertion-at-the-cursor", same_text(s._edit_text, new)
+
+    def effects(old, s, a, result):
+        t = old._edit_text
+        lo, hi = selection(old)
+        new = spliced(t, lo, hi, a.text)
+        p2 = lo + tlen(a.text)
+        s.fields["_edit_text"] = new
+        s.fields["_edit_pos"] = p2
+        s.fields["highlight"] = None
+        s.fields["pref_col_maxcol"] = (None, None)
+        s.trace.extend([("_emit", "change", (new,), t, old._edit_pos), ("_invalidate",),
+                        ("_emit", "postchange", (t,), new, imin(old._edit_pos, tlen(new))), ("_invalidate",), ("_invalidate",)])
